@@ -1349,7 +1349,7 @@ fn resolve_symbols<'data, 'scope, P: Platform>(
                 let name_info = P::raw_symbol_name(
                     name_bytes,
                     &verneed_table,
-                    object::SymbolIndex(local_symbol_index),
+                    object::SymbolIndex(start_symbol_offset + local_symbol_index),
                 );
 
                 let symbol_attributes = SymbolAttributes {
